@@ -467,10 +467,36 @@ int main(int argc, char** argv)
             rev.push_back("--opt-a=not-an-option");
             avs.push_back(rev);
         }
-        for (auto& av : avs)
+        // ramp: EVERY value length from 1 to 300 bytes and every number of 1..20 digits (with and without a leading zero run)
+        // for one option and one multi-option of the wide declaration, in the four spellings - a complete range, so a
+        // threshold at 10, 22, 100 or anywhere between is inside
         {
+            std::vector<std::string> ramp;
+            for (size_t len = 1; len <= 300; len++)
+                ramp.push_back(std::string(len, static_cast<char>('a' + len % 26)));
+            for (size_t dig = 1; dig <= 20; dig++)
+            {
+                ramp.push_back(std::string(dig, '7'));
+                ramp.push_back("00" + std::string(dig, '1'));
+            }
+            for (auto& v : ramp)
+                for (const char* nm : { "opt-b", "multi-1" })
+                {
+                    std::string sh = nm[0] == 'o' ? "b" : "1";
+                    avs.push_back({ std::string("--") + nm, v });
+                    avs.push_back({ std::string("--") + nm + "=" + v });
+                    avs.push_back({ "-" + sh, v });
+                    avs.push_back({ "-" + sh + "=" + v });
+                }
+        }
+        size_t ramp_from = avs.size() - 340 * 8;
+        for (size_t ai = 0; ai < avs.size(); ai++)
+        {
+            auto& av = avs[ai];
             long idx = ctx.next;
             ctx.each([&] { return chk.describe(W, av, {}); }, [&](mc::Report& rep) { chk.run_case(W, av, {}, rep, idx); });
+            if (ai >= ramp_from)
+                continue;
             long vidx = ctx.next;
             ctx.each([&] { return chk.describe_vector_entry(W, av, {}); }, [&](mc::Report& rep) { chk.run_vector_entry(W, av, {}, rep, vidx); });
             chk.used_before(ctx, W, W, av, {});
